@@ -220,8 +220,11 @@ class bspline(object):
             return (self.maskpoints(errb[0]), yfit)
         sol = cholesky_solve(a, beta)
         if self.npoly > 1:
-            self.icoeff[:, goodbk] = np.array(a[0, 0:nfull].reshape(self.npoly, nn), dtype=a.dtype)
-            self.coeff[:, goodbk] = np.array(sol[0:nfull].reshape(self.npoly, nn), dtype=sol.dtype)
+            #
+            # The unknowns are ordered with the polynomial index running fastest.
+            #
+            self.icoeff[:, goodbk] = np.array(a[0, 0:nfull].reshape(nn, self.npoly).T, dtype=a.dtype)
+            self.coeff[:, goodbk] = np.array(sol[0:nfull].reshape(nn, self.npoly).T, dtype=sol.dtype)
         else:
             self.icoeff[goodbk] = np.array(a[0, 0:nfull], dtype=a.dtype)
             self.coeff[goodbk] = np.array(sol[0:nfull], dtype=sol.dtype)
@@ -393,7 +396,7 @@ class bspline(object):
         coeffbk = self.mask[self.nord:].nonzero()[0]
         n = self.mask.sum() - self.nord
         if self.npoly > 1:
-            goodcoeff = self.coeff[:, coeffbk]
+            goodcoeff = self.coeff[:, coeffbk].T.ravel()
         else:
             goodcoeff = self.coeff[coeffbk]
         # maskthis = np.zeros(xwork.shape,dtype=xwork.dtype)
